@@ -163,6 +163,9 @@ func (ex *Exec) intrinsic(fn *ssa.Function, args []Value) (Value, bool) {
 			return nil, true
 		}
 	case "github.com/trzsz/trzsz-go/trzsz.convertSizeToString", "github.com/trzsz/trzsz-go/trzsz.convertTimeToString":
+		if ex.bounds["REALCONV"] != 0 {
+			break // the converters themselves are the subject (C20 converters run): execute them, float comparisons free
+		}
 		// float formatting of sizes and durations: a contract stub — 3..24 printable ASCII characters
 		ex.stubsUsed[name+" (3..24 ASCII)"]++
 		l := ex.nondet(64)
